@@ -160,27 +160,45 @@ theorem fieldsOf_allFields (l : List Rec) (h : AllFields l) : fieldsOf l = l := 
   intro f hf
   simp [(h f hf).1]
 
-/-- facts about `pad (optimize fields)` -/
-theorem pad_optimize_spec (fields : List Rec) (h : AllFields fields) (hp : ∀ f ∈ fields, Pow2 f.align) :
-    ValidLayout (pad (optimize fields)) (total (pad (optimize fields))) ∧
-    ((fieldsOf (pad (optimize fields))).map Rec.key).Perm (fields.map Rec.key) ∧
-    total (pad (optimize fields)) ≤ roundUp (rsum fields) (padAlignment fields) := by
-  have hperm := optimize_perm_list fields
-  have hmem : ∀ f, f ∈ optimize fields → f ∈ fields := fun f hf => hperm.mem_iff.mp hf
-  by_cases hnil : optimize fields = []
+/-- after any correct sort by `byAlignAndSize` (sort.Sort is not stable: any permutation that is
+sorted with respect to `Less`), the fields need no more room than the sum of their rounded sizes. -/
+theorem optEnd_sorted_le (fields sorted : List Rec) (hperm : sorted.Perm fields)
+    (hsorted : sorted.Pairwise (fun f g => sortLe f g = true))
+    (h : AllFields fields) (hp : ∀ f ∈ fields, Pow2 f.align) :
+    optEnd 0 sorted ≤ rsum fields := by
+  have hmem : ∀ f, f ∈ sorted → f ∈ fields := fun f hf => hperm.mem_iff.mp hf
+  have hs : sorted.Pairwise (fun f g => f.size ≠ 0 → g.align ∣ f.align) := by
+    apply List.Pairwise.imp_of_mem _ hsorted
+    intro f g hf hg hle hz
+    exact (hp g (hmem g hg)).dvd_of_le (hp f (hmem f hf)) (sortLe_spec hle hz).2
+  have := optEnd_le_of_sorted sorted 0 0 hs (fun f hf => (h f (hmem f hf)).2) (Nat.le_refl _)
+    (fun f _ => Nat.dvd_zero _)
+  rw [rsum_perm hperm] at this
+  omega
+
+/-- `pad` of ANY correctly sorted permutation of the fields: a valid layout, a permutation of
+the fields, of size at most the rounded sum rounded up to the maximal alignment. -/
+theorem pad_sorted_spec (fields sorted : List Rec) (hperm : sorted.Perm fields)
+    (hsorted : sorted.Pairwise (fun f g => sortLe f g = true))
+    (h : AllFields fields) (hp : ∀ f ∈ fields, Pow2 f.align) :
+    ValidLayout (pad sorted) (total (pad sorted)) ∧
+    ((fieldsOf (pad sorted)).map Rec.key).Perm (fields.map Rec.key) ∧
+    total (pad sorted) ≤ roundUp (rsum fields) (padAlignment fields) := by
+  have hmem : ∀ f, f ∈ sorted → f ∈ fields := fun f hf => hperm.mem_iff.mp hf
+  by_cases hnil : sorted = []
   · have : fields = [] := by
       have := hperm.length_eq; rw [hnil] at this
       exact List.length_eq_zero_iff.mp this.symm
     subst this
     simp only [hnil, pad]
     refine ⟨⟨rfl, by intro r hr; simp at hr, by intro r hr; simp at hr⟩, by simp [fieldsOf], by simp [total]⟩
-  · have h' : AllFields (optimize fields) := fun f hf => h f (hmem f hf)
-    have hp' : ∀ f ∈ optimize fields, Pow2 f.align := fun f hf => hp f (hmem f hf)
-    obtain ⟨t, w, k, tot⟩ := pad_spec (optimize fields) hnil h' hp'
+  · have h' : AllFields sorted := fun f hf => h f (hmem f hf)
+    have hp' : ∀ f ∈ sorted, Pow2 f.align := fun f hf => hp f (hmem f hf)
+    obtain ⟨t, w, k, tot⟩ := pad_spec sorted hnil h' hp'
     rw [tot]
     refine ⟨⟨t, w, ?_⟩, ?_, ?_⟩
     · intro r hr hpad
-      have hrk : r.key ∈ (fieldsOf (pad (optimize fields))).map Rec.key :=
+      have hrk : r.key ∈ (fieldsOf (pad sorted)).map Rec.key :=
         List.mem_map.mpr ⟨r, by simp [fieldsOf, hr, hpad], rfl⟩
       rw [k] at hrk
       obtain ⟨f, hf, hfk⟩ := List.mem_map.mp hrk
@@ -192,7 +210,14 @@ theorem pad_optimize_spec (fields : List Rec) (h : AllFields fields) (hp : ∀ f
     · rw [k]; exact hperm.map _
     · unfold padSize
       rw [padAlignment_perm hperm hp']
-      exact roundUp_mono _ (optEnd_optimize_le fields h hp)
+      exact roundUp_mono _ (optEnd_sorted_le fields sorted hperm hsorted h hp)
+
+/-- facts about `pad (optimize fields)` -/
+theorem pad_optimize_spec (fields : List Rec) (h : AllFields fields) (hp : ∀ f ∈ fields, Pow2 f.align) :
+    ValidLayout (pad (optimize fields)) (total (pad (optimize fields))) ∧
+    ((fieldsOf (pad (optimize fields))).map Rec.key).Perm (fields.map Rec.key) ∧
+    total (pad (optimize fields)) ≤ roundUp (rsum fields) (padAlignment fields) :=
+  pad_sorted_spec fields (optimize fields) (optimize_perm_list fields) (optimize_sorted fields) h hp
 
 /-- **structlayout-optimize -r outputs a permutation of the input fields**: the non-padding
 records of the output are, as (name, size, alignment) triples, a permutation of those of the
@@ -242,6 +267,40 @@ theorem optimize_not_larger_of_dvd (input : List Rec) (size : Nat) (hv : ValidLa
     (hp : ∀ r ∈ input, r.pad = false → Pow2 r.align) (hd : ∀ r ∈ input, r.pad = false → r.align ∣ r.size) :
     total (optimizeMain true input) ≤ size :=
   optimize_not_larger input size ⟨hv, hp, roomy_of_dvd input hd⟩
+
+/-- **Independence of the (unstable) sort**: whatever order `sort.Sort` leaves fields that
+compare equal in, the output is a permutation of the input fields, a valid layout and — for a
+good input — not larger than the input. -/
+theorem optimize_any_sort (input : List Rec) (size : Nat) (h : GoodInput input size)
+    (sorted : List Rec) (hperm : sorted.Perm (fieldsOf input))
+    (hsorted : sorted.Pairwise (fun f g => sortLe f g = true)) :
+    ValidLayout (pad sorted) (total (pad sorted)) ∧
+    ((fieldsOf (pad sorted)).map Rec.key).Perm ((fieldsOf input).map Rec.key) ∧
+    total (pad sorted) ≤ size := by
+  have ha := allFields_fieldsOf input (fun r hr hpad => (h.pow2 r hr hpad).pos)
+  have hp : ∀ f ∈ fieldsOf input, Pow2 f.align := by
+    intro f hf
+    simp only [fieldsOf, List.mem_filter, Bool.not_eq_eq_eq_not, Bool.not_true] at hf
+    exact h.pow2 f hf.1 hf.2
+  obtain ⟨v, p, le⟩ := pad_sorted_spec (fieldsOf input) sorted hperm hsorted ha hp
+  refine ⟨v, p, Nat.le_trans le ?_⟩
+  have hfit := rsum_le_of_roomy input 0 h.valid.tiles h.valid.well h.roomy
+  apply pad_optimize_le _ _ hp (by omega)
+  intro f hf
+  simp only [fieldsOf, List.mem_filter, Bool.not_eq_eq_eq_not, Bool.not_true] at hf
+  exact h.valid.size_aligned f hf.1 hf.2
+
+-- non-vacuity: the two orders of the tied fields `a`, `c` of `struct{a int8; b int64; c int8}`
+example : ([⟨["T", "b"], 8, 16, 8, 8, false⟩, ⟨["T", "c"], 16, 17, 1, 1, false⟩, ⟨["T", "a"], 0, 1, 1, 1, false⟩] : List Rec).Perm
+      (fieldsOf (layout "T" (.cons "a" (.prim .i8) (.cons "b" (.prim .i64) (.cons "c" (.prim .i8) .nil))))) ∧
+    ([⟨["T", "b"], 8, 16, 8, 8, false⟩, ⟨["T", "c"], 16, 17, 1, 1, false⟩, ⟨["T", "a"], 0, 1, 1, 1, false⟩] : List Rec).Pairwise
+      (fun f g => sortLe f g = true) := by
+  constructor
+  · have : fieldsOf (layout "T" (.cons "a" (.prim .i8) (.cons "b" (.prim .i64) (.cons "c" (.prim .i8) .nil)))) =
+        [⟨["T", "a"], 0, 1, 1, 1, false⟩, ⟨["T", "b"], 8, 16, 8, 8, false⟩, ⟨["T", "c"], 16, 17, 1, 1, false⟩] := by decide
+    rw [this]
+    decide
+  · decide
 
 /-- `structlayout -json T | structlayout-optimize -r`, for every struct type: the result is
 never larger than the struct (compiler's size). -/
